@@ -80,14 +80,25 @@ class Play:
         nl = self.leader(v + 1)
         agg = self.pending_agg
         self.pending_agg = None
+        own_ok = True
         if ld == self.r:
             b = f"P{v}"   # the replica proposed when it entered the view (if it did)
         else:
             b = f"B{v}"
             self.L.append(f"block {b} parent={self.cur} view={v} proposer={ld} qc={self.curqc}")
-            if self.adv and rng.random() < 0.25:
+            if self.adv and nl != self.r and rng.random() < 0.12:
+                # the vote for an equivocating leader's first block cannot be sent (next leader unknown
+                # to the sender): it was signed all the same, the second block must be refused
+                self.L.append("sender-fails on")
+                self.inject_proposal(v, before=True, kind="equivocate")
+                if rng.random() < 0.7:
+                    self.L.append("sender-fails off")
+                own_ok = False
+            elif self.adv and rng.random() < 0.25:
                 self.inject_proposal(v, before=True)
             self.L.append(f"deliver propose {b} from={ld}" + (f" agg={agg}" if agg else ""))
+            if "sender-fails on" in self.L[-3:]:
+                self.L.append("sender-fails off")
         self.blocks.append((b, v, ld, self.curqc))
         if nl == self.r:
             # the replica collects the votes and forms the QC itself
@@ -105,7 +116,7 @@ class Play:
             self.L.append(f"create-qc {rng.choice(self.puppets())} {qn} {b} " + " ".join(nm for _, nm in pv[:max(self.q, 2)]))
             self.qcs.append(qn)
         else:
-            qn, _ = self.certify(b, v)
+            qn, _ = self.certify(b, v, include_own=own_ok)
         self.cur, self.curqc, self.curview = b, qn, v
         self.view = v + 1
 
@@ -154,9 +165,9 @@ class Play:
         self.view = v + 1
 
     # ---- adversarial injections -----------------------------------------------------------------
-    def inject_proposal(self, v, before=False):
+    def inject_proposal(self, v, before=False, kind=None):
         rng = self.rng
-        kind = rng.choice(["wrong-leader", "stale", "equivocate", "future", "far-future", "parent-mismatch", "view-not-above",
+        kind = kind or rng.choice(["wrong-leader", "stale", "equivocate", "future", "far-future", "parent-mismatch", "view-not-above",
                            "bad-qc-dup", "bad-qc-sub", "bad-qc-relabel", "bad-qc-nil", "unknown-qc-block", "skip-view",
                            "fork", "fork", "fork-lock"])
         nm = self.fresh("X")
@@ -450,6 +461,8 @@ class ReplicaFam(Family):
     def tags(self, lines, impl_out):
         t = {}
         for l, o in zip(lines, impl_out):
+            if l == "sender-fails on":
+                t["sender-fails"] = t.get("sender-fails", 0) + 1
             if l.startswith(("deliver", "wire", "local-timeout", "start")):
                 k = " ".join(l.split()[:2]) if l.startswith(("deliver", "wire")) else l.split()[0]
                 if "trunc=" in l:
